@@ -462,11 +462,37 @@ def m_str_eq_ignore_case(it, name, a):
     return f(x) == f(y)
 
 
+def _sstr_split(it, s, sep):
+    parts = []
+    cur = []
+    for c in s.chars:
+        if isinstance(c, int):
+            hit = c == ord(sep)
+        else:
+            hit = it.decide(c == ord(sep))
+        if hit:
+            parts.append(normalize(cur))
+            cur = []
+        else:
+            cur.append(c)
+    parts.append(normalize(cur))
+    return parts
+
+
 @model(exact=('core::str::<impl str>::split', 'core::str::<impl str>::rsplit', 'core::str::<impl str>::splitn', 'core::str::<impl str>::split_terminator',
               'core::str::<impl str>::rsplitn'))
 def m_str_split(it, name, a):
-    s = conc(S(it, a[0]))
+    s0 = S(it, a[0])
     op = _meth(name)
+    if isinstance(s0, SStr):
+        p = _pat(it, a[1])
+        if op in ('split', 'rsplit') and isinstance(p, str) and len(p) == 1:
+            parts = _sstr_split(it, s0, p)
+            if op == 'rsplit':
+                parts.reverse()
+            return IterV('owned', parts, 0)
+        raise Unsupported('%s on a symbolic string' % op)
+    s = s0
     if op in ('splitn', 'rsplitn'):
         n, p = a[1], _pat(it, a[2])
         if n == 0:
@@ -524,7 +550,24 @@ def m_str_repeat(it, name, a):
        r'core::str::traits::<impl (std::ops::)?Index<.*> for str>::index', r'core::str::<impl str>::get')
 def m_str_index(it, name, a):
     from .models import _range_bounds
-    s = conc(S(it, a[0]))
+    s0 = S(it, a[0])
+    if isinstance(s0, SStr):
+        # byte offsets = char offsets as long as every character is ASCII (checked / decided)
+        for c in s0.chars:
+            if isinstance(c, int):
+                if c >= 0x80:
+                    raise Unsupported('slicing a symbolic string with non-ASCII characters')
+            elif not it.decide(z3.ULT(c, 0x80)):
+                raise Unsupported('slicing a symbolic string with non-ASCII characters')
+        try:
+            lo, hi = _range_bounds(it, a[1], len(s0.chars))
+        except Panic:
+            if _meth(name) == 'get':
+                return none()
+            raise
+        r = normalize(s0.chars[lo:hi])
+        return some(r) if _meth(name) == 'get' else r
+    s = s0
     b = s.encode('utf-8')
     try:
         lo, hi = _range_bounds(it, a[1], len(b))
@@ -606,3 +649,63 @@ def m_path_identity(it, name, a):
     return s
 
 from . import serdemodel  # noqa: E402,F401
+
+
+# --------------------------------------------------------------------------- file-system stubs / wildmatch (C16)
+@model(r'(std::fs::)?read_to_string(::<.*>)?', exact=('std::fs::read_to_string', 'read_to_string'))
+def m_read_to_string(it, name, a):
+    return it.env.read_to_string(it, S(it, a[0]))
+
+
+@model(r'(std::fs::)?canonicalize(::<.*>)?')
+def m_canonicalize(it, name, a):
+    if hasattr(it.env, 'canonicalize'):
+        return it.env.canonicalize(it, S(it, a[0]))
+    return ok(S(it, a[0]))
+
+
+@model(exact=('PathBuf::new', 'std::path::PathBuf::new'))
+def m_pathbuf_new(it, name, a):
+    return ''
+
+
+@model(r'(std::path::)?PathBuf::push(::<.*>)?')
+def m_pathbuf_push(it, name, a):
+    r = innermost_ref(it, a[0])
+    cur = conc(it.read(r.cell, r.path))
+    comp = conc(S(it, a[1]))
+    if comp.startswith('/'):
+        new = comp
+    elif cur == '' or cur.endswith('/'):
+        new = cur + comp
+    else:
+        new = cur + '/' + comp
+    it.write(r.cell, r.path, new)
+    return UNIT
+
+
+@model(r'(wildmatch::)?WildMatchPattern::<.*>::new', r'(wildmatch::)?WildMatch::new', exact=('WildMatch::new', 'WildMatchPattern::new'))
+def m_wild_new(it, name, a):
+    return Adt('WildMatch', None, [conc(S(it, a[0]))])
+
+
+def glob_match(pat, text):
+    """wildmatch 2.x contract: * = any sequence, ? = any single character, everything else literal"""
+    import functools
+
+    @functools.lru_cache(maxsize=None)
+    def m(i, j):
+        if i == len(pat):
+            return j == len(text)
+        if pat[i] == '*':
+            return any(m(i + 1, k) for k in range(j, len(text) + 1))
+        if j < len(text) and (pat[i] == '?' or pat[i] == text[j]):
+            return m(i + 1, j + 1)
+        return False
+    return m(0, 0)
+
+
+@model(r'(wildmatch::)?WildMatchPattern::<.*>::matches', r'(wildmatch::)?WildMatch::matches', exact=('WildMatch::matches', 'WildMatchPattern::matches'))
+def m_wild_matches(it, name, a):
+    w = it.deref(a[0])
+    return glob_match(w.f[0], conc(S(it, a[1])))
